@@ -131,6 +131,9 @@ def run_case(case, ctx):
 
 @st.composite
 def gen_case(draw, tier):
+	if draw(st.integers(0, 39)) == 39:
+		from vlib import world as Wd
+		return {'kind': 'world', 'world': draw(Wd.world(max_refs=8, max_queries=5)), 'chunksize': draw(st.sampled_from([1000, None, 1, 3]))}
 	taxa = draw(taxgen.forest())
 	ng = draw(st.integers(1, 12))
 	dists = draw(st.lists(taxgen.DIST, min_size=ng, max_size=ng))
